@@ -218,6 +218,11 @@ def run_shard(shard, ctx):
                 ctx.node()
                 s1 = base[:p1] + [(name1, body1, ind1)] + base[p1:]
                 _unknown_case(ctx, s1, base_text, w0, 1)
+                # a second unknown section with the SAME title (other body) anywhere behind the first
+                body_same, ind_same = UNKNOWN_BODIES[(b1 + 2) % len(UNKNOWN_BODIES)]
+                for p2 in range(p1 + 1, len(s1) + 1):
+                    # (reported: once per section or once per title - the statement does not say which)
+                    _unknown_case(ctx, s1[:p2] + [(name1, body_same, ind_same)] + s1[p2:], base_text, w0, (1, 2))
                 for name2 in UNKNOWN_NAMES[(n1 + 1) % len(UNKNOWN_NAMES) :][:3]:
                     if name2 == name1:
                         continue
@@ -230,7 +235,8 @@ def run_shard(shard, ctx):
 def _warn_script(base_text, text, k):
     return """base = %r
 text = %r
-k = %d
+k = %r   # acceptable difference(s)
+k = k if isinstance(k, tuple) else (k,)
 import logging
 class H(logging.Handler):
     n = 0
@@ -247,7 +253,7 @@ def count(t):
     H.n = 0; Chart.from_file(io.StringIO(t)); return H.n
 a, b = count(base), count(text)
 print("warning records: base", a, "modified", b, "expected difference", k)
-sys.exit(0 if b - a == k else 1)
+sys.exit(0 if b - a in k else 1)
 """ % (base_text, text, k)
 
 
@@ -263,15 +269,17 @@ def _unknown_case(ctx, secs, base_text, w0, k):
     if got[0] == "ok" and w0 is not None:
         w = warn_count(text)
         ctx.evaluations += 1
-        if w - w0 != k:
-            ctx.violation("unknown-reported", dict(text=text, kind="unknown", base=base_text, k=k), "%d unknown section(s) %r must add exactly %d warning record(s); got %d (base %d)" % (k, names, k, w, w0), script=_warn_script(base_text, text, k))
+        ks = k if isinstance(k, tuple) else (k,)
+        if w - w0 not in ks:
+            ctx.violation("unknown-reported", dict(text=text, kind="unknown", base=base_text, k=list(ks)), "unknown section(s) among %r must add %s warning record(s); got %d (base %d)" % (names, " or ".join(map(str, ks)), w, w0), script=_warn_script(base_text, text, ks))
 
 
 def replay(case):
     if case.get("kind") in ("unknown", "addtrack"):
         k = case.get("k", 0)
+        ks = tuple(k) if isinstance(k, list) else (k,)
         a, b = warn_count(case["base"]), warn_count(case["text"])
-        if a is None or b is None or b - a != k:
+        if a is None or b is None or b - a not in ks:
             return [dict(key="warnings", msg="warning difference %r-%r != %d" % (b, a, k), case=case)]
         return []
     return e1.replay_model_case(case, "routing")
